@@ -49,6 +49,15 @@ def _same_result(r1, r2):
     return sl.eq_value(u1 if isinstance(u1, np.ndarray) else np.asarray(u1), u2 if isinstance(u2, np.ndarray) else np.asarray(u2))
 
 
+def _restored(before, after):
+    """state value `after` equals `before`; for a nested manager only the attributes that existed before are compared
+    (a manager that is consulted for the first time initialises its own state lazily, like the strategy does)"""
+    if hasattr(before, "get_params") and hasattr(after, "get_params"):
+        sb, sa = sl.bm_state(before), sl.bm_state(after)
+        return core.b_and(*[_restored(v, sa[k]) if k in sa else False for k, v in sb.items() if k != "n_features_in_"])
+    return sl.eq_value(before, after)
+
+
 def scenario(env, make, query, update, chunks, relevant_skip=("n_features_in_",)):
     A = make()
     Bo = copy.deepcopy(A)
@@ -73,7 +82,7 @@ def scenario(env, make, query, update, chunks, relevant_skip=("n_features_in_",)
         # every attribute that existed before the call has the value it had before (attributes created lazily by the
         # first call are compared from then on)
         for k in sorted(relevant & set(s0)):
-            env.prove(sl.eq_value(s0.get(k), s1.get(k)), f"query_restores_state:{k}", info=dict(step=t))
+            env.prove(_restored(s0.get(k), s1.get(k)), f"query_restores_state:{k}", info=dict(step=t))
         r2 = query(A, ch)
         s2 = sl.bm_state(A)
         env.prove(_same_result(r1, r2), "repeated_query_same_result", info=dict(step=t))
